@@ -190,6 +190,9 @@ fn eval_union_expr(
         };
     }
 
+    // a node-set is in document order whatever the order of the operands
+    nodes.sort_by_cached_key(|v| v.order());
+
     let mut set = HashSet::new();
     nodes.retain(|v| set.insert(v.order()));
 
@@ -483,7 +486,7 @@ fn eval_predicate(
 ) -> error::Result<bool> {
     let value = eval_expr(predicate, node, context)?;
     match value {
-        model::Value::Number(v) => Ok(v as usize == context.get_position()),
+        model::Value::Number(v) => Ok(v == context.get_position() as f64),
         _ => Ok(bool::try_from(&value)?),
     }
 }
